@@ -248,8 +248,7 @@ class Hpm(object):
             self.send_message_with_name('QueryRollbackStatus'))
 
     def initiate_manual_rollback(self):
-        return RollbackStatus(
-            self.send_message_with_name('InitiateManualRollback'))
+        self.send_message_with_name('InitiateManualRollback')
 
     def initiate_manual_rollback_and_wait(self, timeout=2, interval=0.1):
         try:
